@@ -140,3 +140,23 @@ Proof.
   cbv zeta. split; [vm_compute; reflexivity|]. split; [|vm_compute; reflexivity].
   eexists. eexists. split; [vm_compute; reflexivity|]. split; vm_compute; reflexivity.
 Qed.
+
+(** the comparison never identifies different comparison operators (nor [and] with [or]): the callee
+    guard [i == k] against the block guard [i < m], whatever the operands *)
+Example cmp_ops_distinguished : forall strict m a b a' b',
+  aeq_x strict m (BinOp OEq a b) (BinOp OLt a' b') = false /\
+  aeq_x strict m (BinOp OLt a b) (BinOp OEq a' b') = false /\
+  aeq_x strict m (BinOp OLe a b) (BinOp OLt a' b') = false /\
+  aeq_x strict m (BinOp OGt a b) (BinOp OGe a' b') = false /\
+  aeq_x strict m (BinOp OAnd a b) (BinOp OOr a' b') = false.
+Proof. intros. cbn [aeq_x binop_eqb andb]. auto 10. Qed.
+
+Example validate_rejects_changed_guard :
+  let n := 1%positive in let dst := 2%positive in let src := 3%positive in let k := 4%positive in let i := 5%positive in
+  let x := 6%positive in let y := 7%positive in let mm := 8%positive in let j := 9%positive in
+  let f := Proc [(n, KSize); (dst, KTensor [Var n] true); (src, KTensor [Var n] true); (k, KIndex)] []
+                [For i (Int 0) (Var n) [If (BinOp OEq (Var i) (Var k)) [Assign dst [Var i] (Read src [Var i])] []] false] in
+  let args := [Int 8; WindowE y [Interval (Int 0) (Int 8)]; WindowE x [Interval (Int 0) (Int 8)]; Var mm] in
+  let blk op := [For j (Int 0) (Int 8) [If (BinOp op (Var j) (Var mm)) [Assign y [Var j] (Read x [Var j])] []] false] in
+  validate (blk OEq) (Call f args) = true /\ validate (blk OLt) (Call f args) = false.
+Proof. cbv zeta. split; vm_compute; reflexivity. Qed.
